@@ -82,6 +82,9 @@ def gen_value(r, depth):
     c = r.random()
     if depth <= 0 or c < 0.30:
         return gen_scalar(r)
+    if c < 0.36:
+        x = gen_value(r, depth - 1)            # the same sub-value in several positions (the worker also runs it as ONE shared object)
+        return r.choice([[x, x], {'from': x, 'to': x}, [x, [x], {'k': x}]])
     if c < 0.66:
         return [gen_value(r, depth - 1) for _ in range(r.choice([0, 1, 2, 2, 3, 4]))]
     d = {}
@@ -389,6 +392,9 @@ def run(tier):
         text = res.get('text')
         if not isinstance(text, str):
             fail('value_json-raised', v, ind, got=text)
+            continue
+        if 'shared_text' in res and res['shared_text'] != res.get('stext'):
+            fail('shared-sub-container-serialises-differently', v, ind, got=res['shared_text'], expected=res.get('stext'))
             continue
         # a standard parser reads it back
         try:
